@@ -5,8 +5,11 @@ import (
 	"encoding/json"
 	"fmt"
 	"os"
+	"runtime"
 	"strconv"
+	"strings"
 	"testing"
+	"time"
 
 	"github.com/frankkopp/FrankyGo/internal/uci"
 )
@@ -58,7 +61,9 @@ func TestWorker(t *testing.T) {
 			t.Fatal(err)
 		}
 		fmt.Fprintf(os.Stderr, "### seed %d start\n", sc.Seed)
+		cancel := startWatchdog(sc, emit)
 		res := RunScenario(t, sc)
+		cancel()
 		res.Scenario = sc
 		emit(res)
 		return
@@ -70,7 +75,9 @@ func TestWorker(t *testing.T) {
 	for seed := from; seed < from+count; seed++ {
 		sc := Generate(prop, seed)
 		fmt.Fprintf(os.Stderr, "### seed %d start\n", seed)
+		cancel := startWatchdog(sc, emit)
 		res := RunScenario(t, sc)
+		cancel()
 		if len(res.Violations) > 0 || res.Harness != "" || keep {
 			res.Scenario = sc
 		}
@@ -89,4 +96,41 @@ func TestDump(t *testing.T) {
 	sc := Generate(os.Getenv("VERIF_PROP"), uint64(envInt("VERIF_FROM", 1)))
 	b, _ := json.MarshalIndent(sc, "", " ")
 	fmt.Fprintln(os.Stderr, string(b))
+}
+
+// startWatchdog guards one run with a wall-clock limit (the only place the
+// harness reads real time). A CPU spin inside the bubble is invisible to the
+// fake clock; when the limit expires the watchdog looks at the goroutine
+// dump: a protocol loop spinning on an ended input scanner is classified,
+// anything else is reported as inconclusive. The worker then exits and the
+// driver continues with the remaining seeds.
+func startWatchdog(sc *Scenario, emit func(*RunResult)) func() {
+	limit := time.Duration(envInt("VERIF_RUN_WALL_S", 90)) * time.Second
+	done := make(chan struct{})
+	go func() {
+		select {
+		case <-done:
+			return
+		case <-time.After(limit):
+		}
+		buf := make([]byte, 4<<20)
+		n := runtime.Stack(buf, true)
+		dump := string(buf[:n])
+		res := &RunResult{Seed: sc.Seed, Prop: sc.Prop, Kind: sc.Kind, Scenario: sc, ExitAfter: true, WallMs: limit.Milliseconds()}
+		spin := false
+		for _, g := range strings.Split(dump, "\n\n") {
+			if (strings.Contains(g, "[running") || strings.Contains(g, "[runnable")) && strings.Contains(g, "uci.(*UciHandler).loop") &&
+				!strings.Contains(g, "handleReceivedCommand") {
+				spin = true
+			}
+		}
+		if spin {
+			res.addViolation("C16", "loop_spin_after_input_end", "the protocol loop spins at full CPU after its input scanner ended (over-long line or end of input); the engine no longer reads commands")
+		} else {
+			res.Harness = "wall-clock watchdog: run exceeded " + limit.String() + " | " + blockedEngineFrames(dump)
+		}
+		emit(res)
+		os.Exit(7)
+	}()
+	return func() { close(done) }
 }
